@@ -107,8 +107,10 @@ type run struct {
 	claimsSeen         map[common.Hash]bool
 	failedClaimDeleted map[string][]*blk // record key -> blocks in which a failed claim tx deleted it (listed C12 finding)
 
-	linear bool // no fork was built on this net so far (database scans describe the only chain)
-	dead   bool
+	accumSeen   int  // rewards accumulated into contract-held records
+	creditsSeen int  // blocks x accounts with a non-zero, exactly matching credit
+	linear      bool // no fork was built on this net so far (database scans describe the only chain)
+	dead        bool
 }
 
 func newRun(m *mon.M, name string, n *hnet.Net, w *hnet.Wallet, r *rand.Rand) *run {
@@ -606,6 +608,8 @@ func (x *run) checkCredits(b, parent *blk, st, pst *state.StateDB, receipts type
 		if delta.Cmp(want) == 0 {
 			if want.Sign() == 0 {
 				x.m.Trivial()
+			} else {
+				x.creditsSeen++
 			}
 			continue
 		}
@@ -909,6 +913,7 @@ func (x *run) checkLockups(b, parent *blk, pst *state.StateDB, receipts types.Re
 			}
 			rec.Balance.Add(rec.Balance, amt)
 			rec.Elements++
+			x.accumSeen++
 			rec.Delegate = [20]byte{}
 			if lay == "contract+delegate" {
 				copy(rec.Delegate[:], d[21:41])
@@ -1008,6 +1013,7 @@ func (x *run) checkLockups(b, parent *blk, pst *state.StateDB, receipts types.Re
 				cls += ":at-tranche-height"
 			}
 			x.m.Eval(cls, tx.Hash().Hex())
+			x.m.Eval("claim:owner-after-unlock:paid-exact-balance-once", tx.Hash().Hex())
 			x.m.SampleClass("claimed", map[string]any{"block": b.num, "claim": fmt.Sprintf("%+v", cl), "balance": rec.Balance.String(), "elements": rec.Elements, "tranche": rec.Tranche})
 			delete(model, k)
 		}
